@@ -2,6 +2,7 @@ import numpy as np
 from skglm.datafits import Quadratic
 from skglm.estimators import GeneralizedLinearEstimator
 from skglm.penalties import WeightedL1, L0_5
+from skglm.solvers import AndersonCD
 from skglm.utils.jit_compilation import compiled_clone
 
 
@@ -68,19 +69,23 @@ class IterativeReweightedL1(GeneralizedLinearEstimator):
                 "Missing `derivative` method. Reweighting is not implemented for " +
                 f"penalty {self.penalty.__class__.__name__}")
 
+        if self.solver is None:
+            self.solver = AndersonCD(fit_intercept=False)
+
         n_features = X.shape[1]
         _penalty = compiled_clone(WeightedL1(self.penalty.alpha, np.ones(n_features)))
-        self.datafit = compiled_clone(self.datafit)
-        self.penalty = compiled_clone(self.penalty)
+        # compile into local variables: the estimator must remain fittable again
+        datafit = compiled_clone(self.datafit)
+        penalty = compiled_clone(self.penalty)
 
         self.loss_history_ = []
 
         for iter_reweight in range(self.n_reweights):
-            coef_ = self.solver.solve(X, y, self.datafit, _penalty)[0]
-            _penalty.weights = self.penalty.derivative(coef_)
+            coef_ = self.solver.solve(X, y, datafit, _penalty)[0]
+            _penalty.weights = penalty.derivative(coef_)
 
-            loss = (self.datafit.value(y, coef_, X @ coef_)
-                    + self.penalty.value(coef_))
+            loss = (datafit.value(y, coef_, X @ coef_)
+                    + penalty.value(coef_))
             self.loss_history_.append(loss)
 
             if self.solver.verbose:
